@@ -927,6 +927,31 @@ func (fr *Frame) knownNonNil(v ssa.Value, at *ssa.BasicBlock) bool {
 	return false
 }
 
+// locksGuard: fn contains a Lock/RLock call on field `mutex` of an object of type T.
+func locksGuard(fn *ssa.Function, T types.Type, mutex string) bool {
+	for _, b := range fn.Blocks {
+		for _, in := range b.Instrs {
+			ci, ok := in.(ssa.CallInstruction)
+			if !ok {
+				continue
+			}
+			callee := ci.Common().StaticCallee()
+			if callee == nil || (callee.Name() != "Lock" && callee.Name() != "RLock") || len(ci.Common().Args) == 0 {
+				continue
+			}
+			fa, ok := ci.Common().Args[0].(*ssa.FieldAddr)
+			if !ok {
+				continue
+			}
+			FT := fa.X.Type().Underlying().(*types.Pointer).Elem()
+			if sT, ok := structOf(FT); ok && typeKey(FT) == typeKey(T) && sT.Field(fa.Field).Name() == mutex {
+				return true
+			}
+		}
+	}
+	return false
+}
+
 // guardedAccess: lock discipline obligation for a read/write of a field declared
 // "guarded (*T).f by mu".
 func (fr *Frame) guardedAccess(site ssa.Instruction, addr ssa.Value, write bool, st *State, reach string) {
@@ -953,7 +978,19 @@ func (fr *Frame) guardedAccess(site ssa.Instruction, addr ssa.Value, write bool,
 			applies = true
 		}
 	}
-	if !applies || createdHere(fa.X, 0) {
+	if !applies {
+		return
+	}
+	root := fr
+	for root.parent != nil {
+		root = root.parent
+	}
+	if gd.Except[QualName(root.fn)] || gd.Except[QualName(fr.fn)] {
+		return
+	}
+	// an object created by this function is exempt - unless the function itself
+	// locks the guard of that object (then it shares the object while it runs)
+	if createdHere(fa.X, 0) && !locksGuard(root.fn, T, gd.Mutex) {
 		return
 	}
 	if gd.Mutex == "atomic" {
